@@ -186,7 +186,9 @@ CANARIES = [
     ('insert_quant: inserted op reads the NEW tensor instead of T', QI, 'insert_quant', 'quant', 'quant_op.inputs = [transformation_input.tensor_id]', 'quant_op.inputs = [new_tensor_id]'),
 ]
 def canaries(rep, exclude=()):
-    for name, rel, qual, kind, a, b in CANARIES:
+    # quick tier: two of the insert_* canaries (rotating with VERIF_SEED); thorough tier: all of them
+    sel = CANARIES if rep.tier == 'thorough' else [CANARIES[(rep.seed + k) % len(CANARIES)] for k in (0, 2)]
+    for name, rel, qual, kind, a, b in sel:
         src = core.read_source(rel)
         if a not in src: rep.canary(name, False, 'mutation site not found (stale canary)'); continue
         fn = core.Fn(rel, qual, src_override=src.replace(a, b))
